@@ -379,6 +379,11 @@ func (ss *SortedSet) searchReverse(nodes []*SortedSetNode, excludeStart, exclude
 		}
 	}
 
+	if x == ss.header {
+		// every score is above the range: the header is not a member
+		return nodes
+	}
+
 	for x != nil && limit > 0 {
 		if excludeStart {
 			if x.score <= start {
@@ -519,7 +524,7 @@ func (ss *SortedSet) FindRank(key string) int {
 				x = x.level[i].forward
 			}
 
-			if x.key == key {
+			if x == node {
 				return rank
 			}
 		}
